@@ -340,8 +340,7 @@ mismatch between values and axes""".format(inferred, self.values.shape)
     def axes(self, newaxes):
         if not isinstance(newaxes, Axes):
             newaxes = Axes._init(newaxes, shape=self.shape)
-        else:
-            assert [ax.size for ax in newaxes] == list(self.shape), "shape mismatch"
+        assert [ax.size for ax in newaxes] == list(self.shape), "shape mismatch"
         self._axes = newaxes
 
     @property
